@@ -272,6 +272,68 @@ fn case(rec: &mut Rec, ctx: &Ctx, idx: u64, rng: &mut ChaCha20Rng) {
   let _ = ctx;
 }
 
+/// a refused call must not leave anything behind on the thread: right after a call that was
+/// refused for an undecodable line FOLLOWING good lines (trailing newline, garbage line, a
+/// truncated share), one share of a threshold-2 measurement yields nothing and a full group
+/// of another measurement yields that measurement's key
+fn after_refused_call(rec: &mut Rec, _ctx: &Ctx, idx: u64, rng: &mut ChaCha20Rng) {
+  let epoch = "after-refused";
+  let mk = |m: &[u8], t: u32, n: usize| -> Option<(String, Vec<String>)> {
+    let mut key = String::new();
+    let mut lines = Vec::new();
+    for _ in 0..n {
+      let v: serde_json::Value = serde_json::from_str(&create_share(m, t, epoch)).ok()?;
+      key = v["key"].as_str()?.to_string();
+      lines.push(v["share"].as_str()?.to_string());
+    }
+    Some((key, lines))
+  };
+  let ta = rng.gen_range(2..=4u32);
+  let (ma, mb) = (rand_bytes_in(rng, 1..20), rand_bytes_in(rng, 1..20));
+  let (a, b) = match (mk(&ma, ta, ta as usize + 1), mk(&mb, 3, 3)) {
+    (Some(a), Some(b)) => (a, b),
+    _ => return,
+  };
+  rec.evals += 1;
+  rec.case(&("after-refused", idx % 6, ta));
+  // t-1 good shares of A, then a line that cannot be decoded
+  let k = ta as usize - 1;
+  let good = a.1[..k].join("\n");
+  let poisoned = match idx % 6 {
+    0 => format!("{}\n", good),
+    1 => format!("{}\n***", good),
+    2 => format!("{}\n{}", good, &a.1[k][..a.1[k].len() / 2]),
+    3 => format!("{}\n\n{}", good, a.1[k]),
+    4 => format!("{}\nAAAA", good),
+    _ => format!("{}\r\n{}", good, a.1[k]),
+  };
+  // (1) ... then ONE further share of A on its own: below the threshold, whatever came before
+  rec.ev("refused_calls_before_honest");
+  let first = quiet(rec, || group_shares(&poisoned, epoch));
+  rec.ev("group_shares_below_threshold");
+  if let Some(Some(k1)) = quiet(rec, || group_shares(&a.1[ta as usize], epoch)) {
+    rec.violation(
+      "group-shares:below-threshold:after-refused-call",
+      format!("ONE share of a threshold-{} measurement yielded a key ({}) right after a call on the same thread that held {} other shares of it and was {}", ta, k1, k, if matches!(first, Some(None)) { "refused" } else { "answered" }),
+      json!({"previous_input": poisoned, "input": a.1[ta as usize]}),
+    );
+    return;
+  }
+  // (2) ... and a full group of another measurement right after such a call
+  rec.ev("refused_calls_before_honest");
+  let _ = quiet(rec, || group_shares(&poisoned, epoch));
+  rec.ev("group_shares");
+  match quiet(rec, || group_shares(&b.1.join("\n"), epoch)) {
+    Some(Some(kb)) if kb == b.0 => {}
+    Some(other) => rec.violation(
+      "group-shares:wrong-result:after-refused-call",
+      format!("a full threshold-3 group returned {:?} right after a refused call on the same thread; its clients hold {}", other, b.0),
+      json!({"previous_input": poisoned, "input": b.1.join("\n")}),
+    ),
+    None => {}
+  }
+}
+
 /// one threshold: t shares through create_share, grouped with and without one missing
 fn threshold_sweep(rec: &mut Rec, _ctx: &Ctx, t: u64, rng: &mut ChaCha20Rng) {
   let t = t as u32 + 1;
@@ -307,5 +369,6 @@ pub fn run(ctx: &Ctx) -> Rec {
   let tmax: u64 = ctx.extra.get("tmax").and_then(|v| v.parse().ok()).unwrap_or((((if ctx.thorough() { 1024 } else { 700 }) as f64) * ctx.scale.min(1.0)).ceil() as u64);
   rec.merge(par_run(ctx, "threshold-sweep", tmax, |rec, i, rng| threshold_sweep(rec, ctx, tmax - 1 - i, rng)));
   rec.note("threshold_sweep_max", json!(tmax));
+  rec.merge(par_run(ctx, "after-refused", ctx.n(600, 20_000), |rec, i, rng| after_refused_call(rec, ctx, i, rng)));
   rec
 }
